@@ -16,53 +16,73 @@ fn print_all(v: &[Statement]) -> G<Vec<String>> {
 }
 
 // ------------------------------------------------------------------ C01
+fn c01_case(r: &mut Report, distinct: &mut BTreeSet<(String, usize)>, s: &str, dn: &str, d: &dyn Dialect, k: usize, optsets: &[Opts]) {
+    for &o in optsets {
+        let v = match parse(d, o, s) {
+            G::Val(Ok(v)) => v,
+            G::Val(Err(_)) => continue,
+            G::Panic(m) => { r.panic(dn, o, s, m); continue; }
+        };
+        r.evaluations += 1;
+        let printed = match print_all(&v) {
+            G::Val(p) => p,
+            G::Panic(m) => { r.panic(dn, o, s, m); continue; }
+        };
+        for (a, p) in v.iter().zip(printed.iter()) {
+            let var = variant_of(a);
+            distinct.insert((var.clone(), k));
+            match parse(d, o, p) {
+                G::Val(Ok(w)) => {
+                    if w.len() != 1 {
+                        r.fail(format!("{var}/count"), dn, o, s, format!("printed={p:?} reparsed to {} statements", w.len()));
+                    } else if &w[0] != a {
+                        r.fail(format!("{var}/differs"), dn, o, s, format!("printed={p:?} reprinted={:?}", w[0].to_string()));
+                    } else if w[0].to_string() != *p {
+                        r.fail(format!("{var}/print-not-idempotent"), dn, o, s, format!("printed={p:?}"));
+                    }
+                }
+                G::Val(Err(e)) => r.fail(format!("{var}/reject"), dn, o, s, format!("printed={p:?} error={e}")),
+                G::Panic(m) => r.panic(dn, o, p, m),
+            }
+        }
+        if v.len() > 1 && !has_copy_stdin(&v) {
+            let joined = printed.join("; ");
+            match parse(d, o, &joined) {
+                G::Val(Ok(w)) if w == v => {}
+                G::Val(other) => r.fail(format!("{}/script", variant_of(&v[0])), dn, o, s, format!("joined={joined:?} result={}", trunc(&format!("{other:?}"), 200))),
+                G::Panic(m) => r.panic(dn, o, &joined, m),
+            }
+        }
+        if r.evaluations % 9973 == 1 {
+            r.sample(serde_json::json!({"dialect": dn, "opts": o.tag(), "sql": s, "printed": printed}));
+        }
+    }
+}
+
 pub fn c01(c: &Corpus, _tier: &str) -> Report {
     let mut r = Report::new("C01", "oracle.roundtrip", "every accepted corpus (text, dialect) pair x 4 option sets: parse(print a) == [a], print idempotent, joined script; non-trivial = distinct (statement variant, dialect)");
     r.exhaustive = true;
     let ds = all_dialects();
     let mut distinct = BTreeSet::new();
     for &(i, k) in &c.accepted {
-        let s = &c.literals[i];
-        let (dn, d) = (&ds[k].0, ds[k].1.as_ref());
-        for o in OPTSETS {
-            let v = match parse(d, o, s) {
-                G::Val(Ok(v)) => v,
-                G::Val(Err(_)) => continue,
-                G::Panic(m) => { r.panic(dn, o, s, m); continue; }
-            };
-            r.evaluations += 1;
-            let printed = match print_all(&v) {
-                G::Val(p) => p,
-                G::Panic(m) => { r.panic(dn, o, s, m); continue; }
-            };
-            for (a, p) in v.iter().zip(printed.iter()) {
-                let var = variant_of(a);
-                distinct.insert((var.clone(), k));
-                match parse(d, o, p) {
-                    G::Val(Ok(w)) => {
-                        if w.len() != 1 {
-                            r.fail(format!("{var}/count"), dn, o, s, format!("printed={p:?} reparsed to {} statements", w.len()));
-                        } else if &w[0] != a {
-                            r.fail(format!("{var}/differs"), dn, o, s, format!("printed={p:?} reprinted={:?}", w[0].to_string()));
-                        } else if w[0].to_string() != *p {
-                            r.fail(format!("{var}/print-not-idempotent"), dn, o, s, format!("printed={p:?}"));
-                        }
-                    }
-                    G::Val(Err(e)) => r.fail(format!("{var}/reject"), dn, o, s, format!("printed={p:?} error={e}")),
-                    G::Panic(m) => r.panic(dn, o, p, m),
-                }
-            }
-            if v.len() > 1 && !has_copy_stdin(&v) {
-                let joined = printed.join("; ");
-                match parse(d, o, &joined) {
-                    G::Val(Ok(w)) if w == v => {}
-                    G::Val(other) => r.fail(format!("{}/script", variant_of(&v[0])), dn, o, s, format!("joined={joined:?} result={}", trunc(&format!("{other:?}"), 200))),
-                    G::Panic(m) => r.panic(dn, o, &joined, m),
-                }
-            }
-            if r.evaluations % 9973 == 1 {
-                r.sample(serde_json::json!({"dialect": dn, "opts": o.tag(), "sql": s, "printed": printed}));
-            }
+        c01_case(&mut r, &mut distinct, &c.literals[i], ds[k].0, ds[k].1.as_ref(), k, &OPTSETS);
+    }
+    r.distinct_nontrivial = distinct.len() as u64;
+    r
+}
+
+/// the same round trip on single-token mutants of the corpus (texts the suite never contained: a
+/// token deleted or duplicated, a keyword swapped for a sibling) that some dialect accepts
+pub fn c01_mutants(c: &Corpus, tier: &str) -> Report {
+    let mut r = Report::new("C01", "oracle.roundtrip-mutants", "single-token mutants of the corpus texts (delete / duplicate one token, swap a keyword for a sibling keyword; rendered from the real tokens) x 13 dialects, default options (thorough: 4 option sets): every accepted mutant must round-trip like any accepted text; non-trivial = distinct (statement variant, dialect)");
+    let ds = all_dialects();
+    let mut distinct = BTreeSet::new();
+    let optsets: Vec<Opts> = if tier == "thorough" { OPTSETS.to_vec() } else { vec![Opts::DEFAULT] };
+    let ms = mutants(c, tier);
+    r.count(&format!("mutants/{}", ms.len()));
+    for s in &ms {
+        for (k, (dn, d)) in ds.iter().enumerate() {
+            c01_case(&mut r, &mut distinct, s, dn, d.as_ref(), k, &optsets);
         }
     }
     r.distinct_nontrivial = distinct.len() as u64;
@@ -109,34 +129,51 @@ fn content_bag(toks: &[TokenWithLocation]) -> BTreeMap<Content, i64> {
     m
 }
 
+fn c05_case(r: &mut Report, distinct: &mut BTreeSet<(String, usize)>, s: &str, dn: &str, d: &dyn Dialect, k: usize) {
+    let o = Opts::DEFAULT;
+    let v = match parse(d, o, s) { G::Val(Ok(v)) if !v.is_empty() => v, _ => return };
+    if has_copy_stdin(&v) { r.count("skipped/copy-stdin"); return; }
+    let printed = match print_all(&v) { G::Val(p) => p.join("; "), G::Panic(m) => { r.panic(dn, o, s, m); return; } };
+    let (t1, t2) = match (tokenize(d, true, s), tokenize(d, true, &printed)) {
+        (G::Val(Ok(a)), G::Val(Ok(b))) => (a, b),
+        (_, G::Val(Err(e))) => { r.fail(format!("{}/print-does-not-lex", variant_of(&v[0])), dn, o, s, format!("printed={printed:?} err={e}")); return; }
+        _ => return,
+    };
+    r.evaluations += 1;
+    let (b1, b2) = (content_bag(&t1), content_bag(&t2));
+    if !b1.is_empty() { distinct.insert((variant_of(&v[0]), k)); }
+    if b1 != b2 {
+        let mut lost = vec![]; let mut invented = vec![];
+        for (kx, n) in &b1 { let m = b2.get(kx).copied().unwrap_or(0); if m < *n { lost.push(format!("{kx:?}")); } }
+        for (kx, n) in &b2 { let m = b1.get(kx).copied().unwrap_or(0); if m < *n { invented.push(format!("{kx:?}")); } }
+        let kind = if !lost.is_empty() && invented.is_empty() { "lost" } else if lost.is_empty() { "invented" } else { "changed" };
+        r.fail(format!("{}/{kind}", variant_of(&v[0])), dn, o, s, format!("printed={printed:?} lost={lost:?} invented={invented:?}"));
+    }
+    if r.evaluations % 4001 == 1 { r.sample(serde_json::json!({"dialect": dn, "sql": s, "bag": format!("{b1:?}")})); }
+}
+
 pub fn c05(c: &Corpus, _tier: &str) -> Report {
     let mut r = Report::new("C05", "oracle.content-bag", "every accepted corpus (text, dialect) pair: bag of content tokens (real tokenizer) of the input == bag of the printed parse; non-trivial = distinct (first statement variant, dialect) with a non-empty bag");
     r.exhaustive = true;
     let ds = all_dialects();
     let mut distinct = BTreeSet::new();
     for &(i, k) in &c.accepted {
-        let s = &c.literals[i];
-        let (dn, d) = (&ds[k].0, ds[k].1.as_ref());
-        let o = Opts::DEFAULT;
-        let v = match parse(d, o, s) { G::Val(Ok(v)) => v, _ => continue };
-        if has_copy_stdin(&v) { r.count("skipped/copy-stdin"); continue; }
-        let printed = match print_all(&v) { G::Val(p) => p.join("; "), G::Panic(m) => { r.panic(dn, o, s, m); continue; } };
-        let (t1, t2) = match (tokenize(d, true, s), tokenize(d, true, &printed)) {
-            (G::Val(Ok(a)), G::Val(Ok(b))) => (a, b),
-            (_, G::Val(Err(e))) => { r.fail(format!("{}/print-does-not-lex", variant_of(&v[0])), dn, o, s, format!("printed={printed:?} err={e}")); continue; }
-            _ => continue,
-        };
-        r.evaluations += 1;
-        let (b1, b2) = (content_bag(&t1), content_bag(&t2));
-        if !b1.is_empty() { distinct.insert((variant_of(&v[0]), k)); }
-        if b1 != b2 {
-            let mut lost = vec![]; let mut invented = vec![];
-            for (kx, n) in &b1 { let m = b2.get(kx).copied().unwrap_or(0); if m < *n { lost.push(format!("{kx:?}")); } }
-            for (kx, n) in &b2 { let m = b1.get(kx).copied().unwrap_or(0); if m < *n { invented.push(format!("{kx:?}")); } }
-            let kind = if !lost.is_empty() && invented.is_empty() { "lost" } else if lost.is_empty() { "invented" } else { "changed" };
-            r.fail(format!("{}/{kind}", variant_of(&v[0])), dn, o, s, format!("printed={printed:?} lost={lost:?} invented={invented:?}"));
+        c05_case(&mut r, &mut distinct, &c.literals[i], ds[k].0, ds[k].1.as_ref(), k);
+    }
+    r.distinct_nontrivial = distinct.len() as u64;
+    r
+}
+
+pub fn c05_mutants(c: &Corpus, tier: &str) -> Report {
+    let mut r = Report::new("C05", "oracle.content-bag-mutants", "single-token mutants of the corpus texts (delete / duplicate one token, swap a keyword for a sibling keyword) x 13 dialects: for every accepted mutant the bag of content tokens of the input == bag of the printed parse; non-trivial = distinct (first statement variant, dialect) with a non-empty bag");
+    let ds = all_dialects();
+    let mut distinct = BTreeSet::new();
+    let ms = mutants(c, tier);
+    r.count(&format!("mutants/{}", ms.len()));
+    for s in &ms {
+        for (k, (dn, d)) in ds.iter().enumerate() {
+            c05_case(&mut r, &mut distinct, s, dn, d.as_ref(), k);
         }
-        if r.evaluations % 4001 == 1 { r.sample(serde_json::json!({"dialect": dn, "sql": s, "bag": format!("{b1:?}")})); }
     }
     r.distinct_nontrivial = distinct.len() as u64;
     r
